@@ -15,6 +15,9 @@ from typing import Callable, Dict, List, Optional
 import numpy as np
 
 
+STARVATION_MS = 600_000  # a caller still polling 10 virtual minutes after the last worker exited will poll for ever
+
+
 class SimDeadlock(Exception):
     """get() with no timeout, no deliverable message and no live producer: blocks forever in a real deployment."""
 
@@ -325,6 +328,15 @@ class SimQueue:
             else:
                 if timeout < 0:
                     timeout = 0
+                if not future and self.producers and all(
+                    p.exit_time is not None and p.exit_time + STARVATION_MS < w.now and not p.blocked_flushing()
+                    for p in self.producers.values()
+                ) and len(self.producers) == len(w.procs):
+                    # polling an empty queue for ever: every producer exited long ago, nothing is in flight
+                    raise SimDeadlock(
+                        f"get(timeout={timeout}) at t={w.now}ms: every worker exited more than {STARVATION_MS // 1000} "
+                        f"virtual seconds ago and nothing is in flight, yet the caller keeps polling"
+                    )
                 horizon = w.now + int(timeout * 1000)
                 if future and future[0] <= horizon:
                     w.now = future[0]
